@@ -28,6 +28,7 @@ class BlobExchangeClientProtocol(asyncio.Protocol):
         self.blob: typing.Optional['AbstractBlob'] = None
 
         self._blob_bytes_received = 0
+        self._expecting_blob_data = False
         self._response_fut: typing.Optional[asyncio.Future] = None
         self.buf = b''
 
@@ -50,7 +51,9 @@ class BlobExchangeClientProtocol(asyncio.Protocol):
         if not self._response_fut:
             log.warning("Protocol received data before expected, probable race on keep alive. Closing transport.")
             return self.close()
-        if self._blob_bytes_received and not self.writer.closed():
+        if (self._blob_bytes_received or self._expecting_blob_data) and self.writer and not self.writer.closed():
+            # once the response announcing our blob has been seen, whatever follows is the blob itself - also
+            # its very first bytes, which must not be searched for another response
             return self._write(data)
 
         response = BlobResponse.deserialize(self.buf + data)
@@ -65,6 +68,7 @@ class BlobExchangeClientProtocol(asyncio.Protocol):
             if blob_response and not blob_response.error and blob_response.blob_hash == self.blob.blob_hash:
                 # set the expected length for the incoming blob if we didn't know it
                 self.blob.set_length(blob_response.length)
+                self._expecting_blob_data = True
             elif blob_response and not blob_response.error and self.blob.blob_hash != blob_response.blob_hash:
                 # the server started sending a blob we didn't request
                 log.warning("%s started sending blob we didn't request %s instead of %s", self.peer_address,
@@ -172,6 +176,7 @@ class BlobExchangeClientProtocol(asyncio.Protocol):
         if self.writer and not self.writer.closed():
             self.writer.close_handle()
         self._response_fut = None
+        self._expecting_blob_data = False
         self.writer = None
         self.blob = None
         if self.transport:
@@ -187,6 +192,7 @@ class BlobExchangeClientProtocol(asyncio.Protocol):
         length_was_unknown = blob.get_length() is None
         try:
             self._blob_bytes_received = 0
+            self._expecting_blob_data = False
             self.blob, self.writer = blob, blob.get_blob_writer(self.peer_address, self.peer_port)
             self._response_fut = asyncio.Future()
             return await self._download_blob()
